@@ -24,7 +24,13 @@ void vf_case(vf::Ctx& c) {
     int lvl = ps.get(ZSTD_c_compressionLevel, 3);
     int strat = ps.get(ZSTD_c_strategy, 0);
     if (lvl >= 16 || strat >= 7) maxsz = std::min<size_t>(maxsz, g_thorough ? (1u << 20) : (256u << 10));
-    std::vector<uint8_t> x = gen::gen_content(t, maxsz, &ci, wl ? ((size_t)1 << wl) : 0);
+    std::vector<uint8_t> x;
+    if (t.chance(12)) {
+        // the block splitter's own diet: records + noisy stretches inside single blocks; the splitter is then forced on half of the time
+        x = gen::gen_records_and_noise(t, (size_t)t.range(100u << 10, std::min<size_t>(maxsz, 600u << 10)));
+        if (t.flip()) ps.v.push_back({ZSTD_c_useBlockSplitter, 1, "useBlockSplitter"});
+        c.label("content_records_and_noise");
+    } else x = gen::gen_content(t, maxsz, &ci, wl ? ((size_t)1 << wl) : 0);
     int dec = (int)t.weighted({3, 2, 2});  // decompress | decompressDCtx | streaming
 
     // contexts live inside the case: a tape replays identically in a fresh process
